@@ -124,8 +124,13 @@ def run_nb_check(ctx, mix_quick, mix_thorough, extra=None, jobs=8):
     for tag, s in sessions:
         if tag not in ivs:
             continue
-        ncmp, mism = N.compare(s, ivs[tag], rows[tag])
-        fails = N.judge(s, ivs[tag])
+        try:
+            ncmp, mism = N.compare(s, ivs[tag], rows[tag])
+            fails = N.judge(s, ivs[tag])
+        except Exception as e:
+            import traceback
+            open(os.path.join(C.VERIF, 'replay', '%s-checker-error.txt' % pid), 'w').write(s.text() + '\n' + traceback.format_exc())
+            raise C.BuildFailure('checker error while judging session %s (script saved in replay/%s-checker-error.txt): %r' % (tag, pid, e))
         stats['compared'] += ncmp
         ctx.count(s.text(), nontrivial=ncmp > 4)
         mism = [m for m in mism if in_domain(pid, m['rel'], True)]
